@@ -211,11 +211,14 @@ def run_case(case, obs=None):
     out = []
     where = "%s(%r) on %s" % (method, kwj, st)
     dev = RecDev(opset)
-    s = SCSI(dev, 512)            # the attach INQUIRY sees an all-zero answer; the set under test is then put in place
+    fbs = kwj.get("_facade_blocksize", 512)
+    s = SCSI(dev, fbs)            # the attach INQUIRY sees an all-zero answer; the set under test is then put in place
     dev.opcodes = opset
     del dev.calls[:]
     kw = {}
     for k, v in kwj.items():
+        if k == "_facade_blocksize":
+            continue
         if v == "BUF":
             v = bytearray(b"\x99" * 512)
         elif v == "MV":
@@ -247,6 +250,7 @@ def run_case(case, obs=None):
     if c["cdb"][0] != want_op:
         out.append(("%s/opcode" % method, "%s: CDB opcode %#04x, the %s set assigns %#04x" % (where, c["cdb"][0], st, want_op)))
     # ---- every supplied argument (and every default) reaches the CDB
+    allkw.pop("_facade_blocksize", None)
     point = {a: v for a, v in allkw.items() if a in S.CLASSES[name]["args"] or (a == "lba" and name in S.ATA_LBA_BYTES)}
     if method == "persistentreservein":
         cname = ["PersistentReserveInReadKeys", "PersistentReserveInReadReservation", "PersistentReserveInReportCapabilities",
@@ -343,6 +347,9 @@ def run_partition(part, tier, seed):
         extra_req = [{"page_code": p} for p in (0x0A, 0x1D, 0x02)]
     elif method in ("write10", "write12", "write16", "writesame10", "writesame16"):
         extra_req = [{}, {"data": "BYTES"}, {"data": "MV"}]
+        if method == "writesame16":
+            # no data-out buffer is transferred with NDOB, so a facade without block size can issue it
+            extra_req.append({"ndob": 1, "_facade_blocksize": 0})
     else:
         extra_req = [{}]
     for st in F.sets_offering(method):
